@@ -125,8 +125,16 @@ func c03Observe(e *executor, r *stepResult, ri *runInfo) {
 var c03TA = &propTest{
 	prop: "C03", unit: "ta-capacity",
 	gen: func(t *rapid.T) *hcCase {
-		return genTACase(t, genOpts{Policy: polTA, MinOps: 12, MaxOps: 45, Reconfig: true, FillPools: true,
-			UpdateHeavy: rapid.IntRange(0, 2).Draw(t, "updateHeavy") == 0})
+		o := genOpts{Policy: polTA, MinOps: 12, MaxOps: 45, Reconfig: true, FillPools: true}
+		switch rapid.IntRange(0, 3).Draw(t, "flavour") {
+		case 0:
+			o.UpdateHeavy = true
+		case 1:
+			// isolated CPUs, containers that want them, requests mixing whole CPUs with a
+			// fraction on nearly full pools: the paths that take CPUs and must give them back
+			o.Topo.WantIsolated, o.ExclHeavy, o.WantIsolatedCtrs = true, true, true
+		}
+		return genTACase(t, o)
 	},
 	invs:    []invFn{checkTACapacity},
 	observe: c03Observe,
